@@ -5,7 +5,8 @@
 set -u
 N=$1; TIER=${2:-quick}; shift; shift 2>/dev/null
 P=/verif/seeded/$N/patch.diff; [ -f "$P" ] || { echo "no $P"; exit 2; }
-IDS=${*:-${N%%-*}}
+DEF=${N%%-*}; case "$DEF" in C[0-9][0-9]) ;; *) DEF=$(jq -r '.breaks_property // .property' "/verif/seeded/$N/meta.json" 2>/dev/null | grep -o "C[0-9][0-9]" | head -1) ;; esac
+IDS=${*:-$DEF}
 [ -z "$(git -C /repo status --porcelain --untracked-files=no)" ] || { echo "/repo is not clean"; exit 2; }
 trap '' PIPE                                   # a reader that stops early must not keep us from restoring /repo
 trap 'git -C /repo checkout -- . 2>/dev/null' EXIT
